@@ -17,7 +17,7 @@ type Preempt struct {
 	To   int   `json:"to"`
 }
 
-const maxTasks = 8
+const maxTasks = 48
 const maxPreempts = 64
 const maxSig = 512
 
